@@ -5,6 +5,7 @@
 package main
 
 import (
+	"runtime"
 	"encoding/json"
 	"fmt"
 	"io"
@@ -120,7 +121,9 @@ func main() {
 	rep := free.Report{Probes: map[string]int{}}
 	bin := filepath.Join(work, "bin")
 	logFile := filepath.Join(work, "exec.log")
+	baseline := runtime.NumGoroutine()
 	for i := 0; i < runs && len(rep.Violations) < 3; i++ {
+		free.Quiesce(baseline)
 		r := kernel.NewRand(kernel.Mix(seed, "C20-tier3", i))
 		w := free.WorldOf(r.Intn(512))
 		failMode = kernel.Pick(r, []string{"exit", "exit", "signal", "start"})
@@ -160,6 +163,7 @@ func main() {
 		}
 		close(start)
 		wg.Wait()
+		free.Quiesce(baseline)
 		var events []free.Event
 		b, _ := os.ReadFile(logFile)
 		for _, line := range strings.Split(strings.TrimSpace(string(b)), "\n") {
